@@ -70,6 +70,11 @@ class Exclusivity(O.Monitor):
                         and i.service_start_date is not False and i.service_end_date is not False and not any(x is sv for x in nd.servers):
                     rep("customer-in-service-on-a-server-that-is-not-at-the-node", {"node": nd.id_number, "customer": i.id_number,
                                                                                     "server": getattr(sv, "id_number", None)})
+                # the customer's side of the attachment: a customer whose service is running on a server of this node is that server's customer
+                if sv is not False and sv is not None and sv is not True and i.service_start_date is not False and any(x is sv for x in nd.servers) \
+                        and getattr(sv, "cust", None) is not i:
+                    rep("two-customers-never-share-a-server", {"node": nd.id_number, "customer": i.id_number, "server": getattr(sv, "id_number", None),
+                                                              "server_serves": getattr(getattr(sv, "cust", None), "id_number", None)})
             n_live = sum(1 for i in cs if O.live(nd, i))
             if n_live > len(nd.servers):
                 rep("at-most-c-in-service", {"node": nd.id_number, "in_service": n_live, "servers": len(nd.servers)})
